@@ -9,6 +9,7 @@
    exit_if_empty [eie] (unless stated) and EVERY schedule [sched] (list of thread steps and clock
    advances).  Tie to /repo: harness/props/C31.py (same schedules on the real class, logs equal). *)
 From RxVerif Require Import Base.Prelude Core.EventLoop Core.EventLoopFacts.
+From RxVerif Require Import Core.EventLoopBatch.
 From Coq Require Import Permutation Sorted.
 Local Open Scope Z_scope.
 
@@ -77,6 +78,25 @@ Theorem C31_cancel_before_test : forall eie body t0 progs sched l1 i l2,
   exists l0 l0', l1 = l0 ++ ECheck i false :: l0' /\ ~ In (ECancelRet (it_lbl i)) l0.
 Proof. exact el_cancel_before_test. Qed.
 Print Assumptions C31_cancel_before_test.
+
+(* the is_cancelled() test is made per item, right before that item's invocation: an action that starts
+   passed its OWN test, no dispose() of its disposable had returned before that test, and between that test
+   and the start the log has only events of calls made by scheduling threads -- no other item of this
+   scheduler is tested, no other action starts or ends in between *)
+Theorem C31_test_right_before_invoke : forall eie body t0 progs sched l1 i l2,
+  L (run eie body (init t0 progs) sched) = l1 ++ EStart i :: l2 ->
+  exists l0 w, l1 = l0 ++ ECheck i false :: w /\ ~ In (ECancelRet (it_lbl i)) l0 /\ forallb callish w = true.
+Proof. exact el_test_right_before_invoke. Qed.
+Print Assumptions C31_test_right_before_invoke.
+
+(* an action cancelled before the previous action of its batch finished never starts: if dispose() of item
+   i's disposable returned before ANY action j ended (in particular the one dispatched just before i, whether
+   j itself made the call or another thread did while j ran) and i had not started by then, i never starts *)
+Theorem C31_cancelled_during_earlier_action_never_starts : forall eie body t0 progs sched a j b i,
+  L (run eie body (init t0 progs) sched) = a ++ EEnd j :: b ->
+  In (ECancelRet (it_lbl i)) a -> ~ In (EStart i) a -> ~ In (EStart i) b.
+Proof. exact el_cancelled_during_earlier_action_never_starts. Qed.
+Print Assumptions C31_cancelled_during_earlier_action_never_starts.
 
 (* the STRICT reading ("dispose() returned before the action's first instruction => it never
    runs") is false of the code: the window between is_cancelled() and invoke() *)
@@ -188,3 +208,20 @@ Example C31_ex_dispose_thread_sleeps :
   nth_error (c_ths dispose_sleep_witness) 2 = Some (TLoop LWaiting) /\
   wt (c_sh dispose_sleep_witness) = Some (Wait 2 None false).
 Proof. exact el_dispose_thread_may_sleep_for_ever. Qed.
+
+(* one batch, a later item disposed before its turn.  (kind, label): 8 spawn, 0 ret, 4 test->False, 5 test->True,
+   6 start, 7 end, 2 dispose() of the item's disposable returned.
+   Single-threaded: action 0 submits 1, 2, 3 from the loop thread (one cycle gathers all three); action 1
+   disposes 2; 2 is tested after that (5) and does not start; 3 runs.  This is also the log of the real class. *)
+Example C31_ex_disposed_by_earlier_action_of_same_batch :
+  map snd (observable (c_log same_batch_witness)) =
+    [(8, 1); (0, 0); (4, 0); (6, 0); (0, 1); (0, 2); (0, 3); (7, 0); (4, 1); (6, 1); (2, 2); (7, 1); (5, 2); (4, 3);
+     (6, 3); (7, 3)]%nat /\ quiescent same_batch_witness = true.
+Proof. vm_compute. split; reflexivity. Qed.
+
+(* three timed items of one due time, the second disposed by a scheduling thread while the first runs *)
+Example C31_ex_disposed_by_other_thread_while_earlier_action_runs :
+  map snd (observable (c_log foreign_batch_witness)) =
+    [(8, 2); (0, 1); (0, 2); (0, 3); (4, 1); (6, 1); (2, 2); (7, 1); (5, 2); (4, 3); (6, 3); (7, 3)]%nat /\
+  quiescent foreign_batch_witness = true.
+Proof. vm_compute. split; reflexivity. Qed.
